@@ -34,6 +34,9 @@ LINE_BUDGET = 3_000_000
 MAX_DEPTH = 40
 
 plot_utils = sut.load("plot_utils")
+OPTION_PROBES = [(plot_utils.subdivideCubicPath, ["s_p", "flat", "i"],
+                  [[[[0.0, 0.0], [0.0, 0.0], [30.0, 80.0]], [[70.0, 80.0], [100.0, 0.0], [100.0, 0.0]]], 0.5])]
+
 
 
 def fpt(p):
@@ -103,7 +106,13 @@ def body(ctx, case):
     scale = case["scale"]
     # callers hand in points as lists (cubicsuperpath) or as tuples (the repository's own tests): both are exercised
     mk = tuple if case.get("tuples") else list
-    s_p = [[mk(h) for h in node] for node in nodes]
+    if case.get("shared"):
+        # equal points are one object (a return stroke built by reversing the outbound nodes, a node whose handles
+        # are retracted onto it): whatever the function writes, it must not write it into a point another node uses
+        pool = {}
+        s_p = [[pool.setdefault(tuple(h), mk(h)) for h in node] for node in nodes]
+    else:
+        s_p = [[mk(h) for h in node] for node in nodes]
     original = [[tuple(h) for h in node] for node in nodes]
     classes = set(case.get("tags", []))
     if len(nodes) == 1:
@@ -111,6 +120,8 @@ def body(ctx, case):
     if len(nodes) > 2:
         classes.add("multi_piece")
     classes.add("points_as_tuples" if case.get("tuples") else "points_as_lists")
+    if case.get("shared"):
+        classes.add("shared_point_objects")
     if scale <= 1e-5:
         classes.add("tiny_scale")
     try:
@@ -315,6 +326,17 @@ def typed_cases(draw):
         ox, oy = off * draw(st.sampled_from([1, -1, 1, 0])), off * draw(st.sampled_from([1, -1, 1]))
         case["nodes"] = [[[h[0] + ox, h[1] + oy] for h in node] for node in case["nodes"]]
         case["tags"] = sorted(set(case["tags"]) | {"far_from_origin"})
+    if 2 <= len(case["nodes"]) <= 4 and draw(st.integers(0, 5)) == 0:
+        # out along the curve and back again: the return half is the outbound half reversed ([in, pt, out] ->
+        # [out, pt, in]) behind a U-turn node
+        out = case["nodes"]
+        turn = [list(out[-1][0]), list(out[-1][1]), list(out[-1][0])]
+        back = [[list(n[2]), list(n[1]), list(n[0])] for n in reversed(out[:-1])]
+        case["nodes"] = [[list(h) for h in n] for n in out[:-1]] + [turn] + back
+        case["tags"] = sorted(set(case["tags"]) | {"retraced"})
+        case["shared"] = draw(st.booleans())
+    elif draw(st.integers(0, 5)) == 0:
+        case["shared"] = True
     return case
 
 
@@ -333,6 +355,9 @@ def fixed_cases():
     yield {"nodes": [[[0.0, 0.0], [0.0, 0.0], [100.0, 100.0]], [[0.0, 100.0], [100.0, 0.0], [100.0, 0.0]]],
            "flat": 0.02, "scale": 100.0, "tags": []}
     yield {"nodes": [[[5.0, 5.0], [0.0, 0.0], [5.0, 5.0]]], "flat": 0.1, "scale": 5.0, "tags": []}
+    yield {"nodes": [[[0.0, 0.0], [0.0, 0.0], [30.0, 80.0]], [[70.0, 80.0], [100.0, 0.0], [70.0, 80.0]],
+                     [[30.0, 80.0], [0.0, 0.0], [0.0, 0.0]]],
+           "flat": 0.5, "scale": 100.0, "tags": ["retraced"], "shared": True}
     corner = [[0.0, 10.0], [0.0, 10.0], [0.0, 10.0]]
     yield {"nodes": [[[0.0, 0.0], [0.0, 0.0], [0.0, 0.0]], [list(h) for h in corner],
                      [[6.0, 10.0], [8.0, 8.0], [8.0, 4.0]], [list(h) for h in corner]],
@@ -340,7 +365,7 @@ def fixed_cases():
 
 
 def run(ctx):
-    ctx.exhaustive("fixed-shapes", fixed_cases(), body, "seven hand-picked shapes (loop, repeated node, polygon, flag revisiting a corner, "
+    ctx.exhaustive("fixed-shapes", fixed_cases(), body, "eight hand-picked shapes (loop, repeated node, polygon, flag revisiting a corner, out-and-back stroke with shared points, "
                    "S-curve, cusp, single node)")
     ctx.given("generated", typed_cases(), body, quick=800, thorough=40000)
 
